@@ -247,6 +247,13 @@ func main() {
 	var cases []rcase
 	tss := []uint64{0, 1, 999999, 1000000, 1 << 24, 1 << 40, 1<<48 - 1, 0xFDFEFDFEFDFE}
 	plens := []int{0, 1, 9, 255}
+	if r.Thorough() {
+		plens = nil
+		for n := 0; n <= 255; n += 5 {
+			plens = append(plens, n)
+		}
+		plens = append(plens, 1, 9, 254)
+	}
 	for _, dial := range []bool{false, true} {
 		for ki, k := range ks {
 			for _, pl := range plens {
